@@ -56,7 +56,7 @@ def cmd_pin(_args):
 # checks whose implementation side must run under the baseline interpreter (/venv/bin/python, 3.12): the generated codecs depend on
 # enum.Flag's strict boundary, which Debian's 3.11.2 does not implement (Flag(invalid bits) silently drops them there)
 BASELINE_INTERPRETER = '/venv/bin/python'
-BASELINE_CHECKS = {'C01', 'C02', 'C12'}
+BASELINE_CHECKS = {'C01', 'C02', 'C12', 'C15'}
 
 
 def cmd_check(args):
